@@ -292,6 +292,17 @@ UNITS = {
             dict(I(RAW, r'^impl Iterator for RawIterHashInner$', 'next', impl='RawIterHashInner', key='RawIterHashInner::next'), value_type=['usize']),
         ],
     ),
+    # C15: the duplicate check of get_many_mut
+    'many': dict(
+        widths=[16],
+        prelude='preludes/many.rs',
+        specs='contracts/many.vspec',
+        lemmas=['lemmas/many_lemmas.rs'],
+        extra='many_rules',
+        items=[
+            I(RAW, r'^impl < T , A : Allocator > RawTable < T , A >$', 'get_many_mut', impl='RawTable<T>', key='RawTable::get_many_mut'),
+        ],
+    ),
 }
 
 
@@ -1102,6 +1113,51 @@ def serde_rules(toks, i, out, hit):
         hit('R29_inplace_visitor_field_to_param')
         return i + 3
     return iter_rules(toks, i, out, hit)
+
+
+def many_rules(toks, i, out, hit):
+    """unit `many`:
+       R30a `for (I, C) in A.iter().enumerate() {` -> `for I in 0..N { let C = &A[I];`   (an array of length N)
+       R30b `A[..I].contains(C)` -> `prefix_contains(&A, I, C)`
+       R30c `A.map(|ptr| ptr.map(|mut ptr| ptr.as_mut()))` -> `refs_of(A)` (obligation: no two pointers alias)
+       R30d `panic!(..)` -> `do_panic()`;  types `impl FnMut(usize, &T) -> bool` -> `EqMany`, `Option<&'_ mut T>` -> `Option<RefIdx>`"""
+    t = toks[i]
+    n = len(toks)
+    T = extract.T
+
+    def seq(k, *texts):
+        return k + len(texts) <= n and all(toks[k + a].text == x for a, x in enumerate(texts))
+    if t.text == 'impl' and seq(i + 1, 'FnMut', '(', 'usize', ',', '&', 'T', ')', '-', '>', 'bool'):
+        out.append(T('EqMany', t.gap))
+        hit('R30d_eq_closure_type_to_opaque')
+        return i + 11
+    if t.text == '&' and seq(i + 1, "'_", 'mut', 'T'):
+        out.append(T('RefIdx', t.gap))
+        hit('R30d_exclusive_ref_type_to_index')
+        return i + 4
+    if t.text == 'for' and seq(i + 1, '(') and toks[i + 2].kind == 'id' and seq(i + 3, ',') and toks[i + 4].kind == 'id' and seq(i + 5, ')', 'in') \
+            and toks[i + 7].kind == 'id' and seq(i + 8, '.', 'iter', '(', ')', '.', 'enumerate', '(', ')', '{'):
+        I_, C_, A_ = toks[i + 2].text, toks[i + 4].text, toks[i + 7].text
+        out.extend([T('for', t.gap), T(I_), T('in'), T('0'), T('.', ''), T('.', ''), T('N', ''), T('{'),
+                    T('let', '\n'), T(C_), T('='), T('&'), T(A_, ''), T('[', ''), T(I_, ''), T(']', ''), T(';', '')])
+        hit('R30a_enumerate_over_array_to_index_loop')
+        return i + 17
+    if t.kind == 'id' and seq(i + 1, '[', '.', '.') and toks[i + 4].kind == 'id' and seq(i + 5, ']', '.', 'contains', '('):
+        c = extract._find_close(toks, i + 8)
+        out.extend([T('prefix_contains', t.gap), T('(', ''), T('&', ''), T(t.text, ''), T(',', ''), T(toks[i + 4].text)] + [T(',', '')] +
+                   extract.rewrite(toks[i + 9:c], set(), _HITS, many_rules) + [T(')', '')])
+        hit('R30b_slice_prefix_contains')
+        return c + 1
+    if t.kind == 'id' and seq(i + 1, '.', 'map', '(', '|', 'ptr', '|', 'ptr', '.', 'map', '(', '|', 'mut', 'ptr', '|', 'ptr', '.', 'as_mut', '(', ')', ')', ')'):
+        out.extend([T('refs_of', t.gap), T('(', ''), T(t.text, ''), T(')', '')])
+        hit('R30c_pointers_to_exclusive_refs')
+        return i + 22
+    if t.text == 'panic' and seq(i + 1, '!', '('):
+        c = extract._find_close(toks, i + 2)
+        out.extend([T('do_panic', t.gap), T('(', ''), T(')', '')])
+        hit('R30d_panic_to_diverging_call')
+        return c + 1
+    return None
 
 
 def generate(unit_name, width, outdir):
